@@ -202,6 +202,21 @@ func registerIntrinsics2(in *Interp) {
 			return StrV{S: fmt.Sprint(gv...)}
 		}
 	}
+	// integer rendering: concrete values run strconv from source; a symbolic
+	// value gives a placeholder (same "formatting is opaque" stub as fmt)
+	for _, n := range []string{"strconv.FormatInt", "strconv.FormatUint", "strconv.Itoa"} {
+		name := n
+		r[name] = func(in *Interp, fr *Frame, a []V) V {
+			if t, ok := a[0].(*Term); ok && t.Op != OpConst {
+				return StrV{S: "<int>"}
+			}
+			fn := in.Prog.ImportedPackage("strconv").Func(strings.TrimPrefix(name, "strconv."))
+			saved := in.intr[name]
+			delete(in.intr, name)
+			defer func() { in.intr[name] = saved }()
+			return in.callSSA(fn, a, nil, fr)
+		}
+	}
 	r["fmt.Sprint"] = sprint(false)
 	r["fmt.Sprintln"] = sprint(true)
 	outN := func(in *Interp, fr *Frame, a []V) V {
